@@ -1089,6 +1089,11 @@ class Interp:
                     if c is object or c in (Exception, BaseException) or isinstance(c, type):
                         if name == "__init__":
                             return Native(lambda it, *a, **k: _native_base_init(obj.obj, a), pure=False, name="object.__init__")
+                        if name == "__setattr__" and isinstance(obj.obj, ObjVal):
+                            # object.__setattr__: the plain store (the user's own __setattr__ is not entered again)
+                            def _plain_store(it, key, value, _o=obj.obj):
+                                it.setattr(_o, key, value, _skip_user_setattr=True)
+                            return Native(_plain_store, pure=False, name="object.__setattr__")
                         if hasattr(c, name):
                             return getattr(c, name)
             raise PyRaise(AttributeError(name))
@@ -1124,7 +1129,7 @@ class Interp:
         except AttributeError as e:
             raise PyRaise(e)
 
-    def setattr(self, obj, name, val):
+    def setattr(self, obj, name, val, _skip_user_setattr=False):
         if isinstance(obj, Opaque):
             self.ctx.log_opaque.append(f"setattr({obj.why}.{name}) ignored")
             return
@@ -1133,7 +1138,7 @@ class Interp:
         if isinstance(obj, ObjVal):
             if obj.cls is not None:
                 f, owner = obj.cls.lookup("__setattr__")
-                if isinstance(f, FuncVal):
+                if isinstance(f, FuncVal) and not _skip_user_setattr:
                     self.call_function(f, [obj, name, val], {})
                     return
                 # property setter
